@@ -1,6 +1,7 @@
 package verifsim
 
 import (
+	"container/heap"
 	"time"
 
 	"github.com/nspcc-dev/dbft"
@@ -705,4 +706,196 @@ func (s *Sim) directedPrimaryRestartPrefix() bool {
 		s.note("restarted_primary_holds_its_own_proposal_again")
 	}
 	return true
+}
+
+// directedLedgerAheadRun: the state "the ledger has moved on by block sync, the application has
+// not called Reset yet, and the timer of the old height fires at the node that is that height's
+// primary" - with the dynamic block time extension on, empty pools and a block time that
+// changes with every height, so that every callback the library reads live (instead of the
+// value it took at Reset) already answers for the next height.  The three other validators
+// lose view 0 (its primary X never gets to propose), agree on view 1 and decide without X; X is
+// given the block by sync and then its own time-out.  The seeded network takes over for three
+// more heights.
+func directedLedgerAheadRun(arm func(*Sim)) func(*Tape, bool) *RunResult {
+	return func(t *Tape, record bool) *RunResult {
+		sc := directedScenario(t, 1)
+		for i := range sc.Fault {
+			sc.Fault[i] = FHonest
+		}
+		sc.Heights = 4
+		sc.MaxTime = int64(sc.TPB) * 200
+		sc.TxRate = 0
+		sc.MaxTPB = sc.TPB * time.Duration(pick(t, SScen, 1, 2, 3))
+		sc.TPB2 = sc.TPB * time.Duration(pick(t, SScen, 1, 3, 6)) / 2
+		sc.TPBAlt = true
+		sc.TPB2From = sc.Start + 1 + uint32(t.Draw(SScen, 2))
+		sc.ResetDelay = int64(sc.TPB) * 3
+		s := NewSim(sc, t)
+		s.record = record
+		s.manual = true
+		arm(s)
+		s.installMapPerm()
+		defer func() { dbft.VerifMapPerm = nil }()
+		for _, n := range s.nodes {
+			n.boot()
+		}
+		if s.directedLedgerAheadPrefix() {
+			s.note("directed_prefix_completed")
+		} else {
+			s.note("directed_prefix_abandoned")
+		}
+		s.manual = false
+		for i := range s.nodes {
+			s.after(sc.SyncEvery+int64(i), &Event{Kind: EvSyncPoll, Node: i})
+		}
+		if s.viol == nil {
+			s.loop()
+		}
+		return &RunResult{Viol: s.viol, St: s.st, Scen: sc.Summary(), Trace: s.trace, SimCount: 1}
+	}
+}
+
+// floodAmong hands every payload of height h that a member of the group has broadcast since
+// position *pos of the authentic log to every other member that is still at that height.
+func (s *Sim) floodAmong(group []*Node, h uint32, pos *int) {
+	in := map[int]bool{}
+	for _, n := range group {
+		in[n.id] = true
+	}
+	for guard := 0; *pos < len(s.authentic) && guard < 400 && s.viol == nil; guard++ {
+		p := s.authentic[*pos]
+		*pos++
+		if !in[p.sender] || p.H != h {
+			continue
+		}
+		for _, n := range group {
+			if n.id != p.sender && n.d != nil && n.d.BlockIndex == h && !n.accepted {
+				s.give(n, p)
+			}
+		}
+	}
+}
+
+func (s *Sim) directedLedgerAheadPrefix() bool {
+	sc := s.sc
+	h := sc.Start + 1
+	pos := 0
+	// the first height is decided by everybody in the ordinary way (at Start the primary
+	// proposes at once, so the state we are after needs a height entered by Reset)
+	for _, n := range s.nodes {
+		if n.d == nil || n.d.BlockIndex != h {
+			s.note("ledger_ahead_prefix_abandoned_at_0")
+			return false
+		}
+	}
+	for round := 0; round < 4; round++ {
+		s.floodAmong(s.nodes, h, &pos)
+	}
+	for _, n := range s.nodes {
+		if n.tip().Idx != h || s.viol != nil {
+			s.note("ledger_ahead_prefix_abandoned_at_00")
+			return false
+		}
+	}
+	// the applications call Reset (by hand: the queued Reset events are dropped)
+	kept := s.q[:0]
+	for _, ev := range s.q {
+		if ev.Kind != EvAppReset {
+			kept = append(kept, ev)
+		}
+	}
+	s.q = kept
+	heap.Init(&s.q)
+	for _, n := range s.nodes {
+		s.now += int64(time.Millisecond)
+		n.appReset()
+	}
+	h++
+	var x *Node
+	var others []*Node
+	for _, n := range s.nodes {
+		if n.d == nil || n.d.BlockIndex != h {
+			s.note("ledger_ahead_prefix_abandoned_at_1")
+			return false
+		}
+		if n.d.IsPrimary() {
+			x = n
+		} else {
+			others = append(others, n)
+		}
+	}
+	if x == nil || len(others) < 3 {
+		s.note("ledger_ahead_prefix_abandoned_at_2")
+		return false
+	}
+	pos = len(s.authentic)
+	// view 0 fails for the others: X has not proposed, they time out (recovery requests first,
+	// change-view requests then) until they agree on view 1
+	for round := 0; round < 5; round++ {
+		moved := true
+		for _, n := range others {
+			if n.d.ViewNumber == 0 {
+				moved = false
+				s.manualTimeout(n)
+			}
+		}
+		if moved {
+			break
+		}
+		s.floodAmong(others, h, &pos)
+		if s.viol != nil {
+			s.note("ledger_ahead_prefix_abandoned_at_3")
+			return false
+		}
+	}
+	var p1 *Node
+	for _, n := range others {
+		if n.d.BlockIndex != h || n.d.ViewNumber != 1 {
+			s.note("ledger_ahead_prefix_abandoned_at_4")
+			return false
+		}
+		if n.d.IsPrimary() {
+			p1 = n
+		}
+	}
+	if p1 == nil {
+		s.note("ledger_ahead_prefix_abandoned_at_5")
+		return false
+	}
+	// the primary of view 1 proposes, the others answer, everybody commits: height h is decided
+	// without X
+	if s.sentAt(p1, dbft.PrepareRequestType, h, 1) == nil {
+		s.manualTimeout(p1)
+	}
+	for round := 0; round < 4; round++ {
+		s.floodAmong(others, h, &pos)
+	}
+	if s.viol != nil {
+		s.note("ledger_ahead_prefix_abandoned_at_6")
+		return false
+	}
+	var blk *Block
+	for _, n := range others {
+		if n.tip().Idx == h {
+			blk = n.tip()
+		}
+	}
+	if blk == nil {
+		s.note("ledger_ahead_prefix_abandoned_at_7")
+		return false
+	}
+	// X gets the block from the ledger of a peer; its application will call Reset later - and
+	// the timer of height h fires first
+	if x.tip().Idx != h-1 || x.d.BlockIndex != h || x.d.RequestSentOrReceived() {
+		s.note("ledger_ahead_prefix_abandoned_at_8")
+		return false
+	}
+	x.syncApply([]*Block{blk})
+	if x.tip().Idx != h {
+		s.note("ledger_ahead_prefix_abandoned_at_9")
+		return false
+	}
+	s.note("primary_timer_fires_while_ledger_is_ahead_and_reset_pending")
+	s.manualTimeout(x)
+	return s.viol == nil
 }
